@@ -245,6 +245,25 @@ theorem evalOp_hom (op : Op) (ds : List Int) (vs : List (Val K)) (d : Int)
 
 end ops
 
+/-- masking commutes with the safe division by a (broadcast) factor: `where(m, 0, x) / s = where(m, 0, x / s)` -/
+theorem mapIdxAux_comp (f g : Nat → K → K) (n : Nat) (xs : List K) :
+    mapIdxAux f n (mapIdxAux g n xs) = mapIdxAux (fun i a => f i (g i a)) n xs := by
+  induction xs generalizing n with
+  | nil => rfl
+  | cons a t ih => simp [mapIdxAux, ih]
+
+theorem safeDiv_applyMask_comm (X : Ext K) (m : Meta) (sf mk k : Val K) :
+    evalOp S X m .safeDiv [sf, evalOp S X m .applyMask [mk, k]]
+      = evalOp S X m .applyMask [mk, evalOp S X m .safeDiv [sf, k]] := by
+  obtain ⟨nc, ns, cplx, data⟩ := k
+  cases cplx <;>
+  · simp only [evalOp, mapIdx, mapIdxAux_comp, Val.stride, Bool.false_eq_true, ↓reduceIte]
+    congr 1
+    apply mapIdxAux_congr
+    intro i a
+    simp only [fo_isZero, fo_zero, fo_div, decide_eq_true_eq]
+    split <;> split <;> simp
+
 /-! ## stores -/
 
 /-- the store obtained from `s` by scaling the tensor under key `k` by `c ^ (e k)` -/
